@@ -227,12 +227,12 @@ def su2_unsubscribe(ctx, rep):
                         ob, ot = _resolve_upvars(ctx, body, e.args[0])
                         own = ob.path == add.path and strip_clone(strip_wrap(ot)) == ("param", 2)
                         lens = [k for k, v in p0.decisions if sum(1 for st in subterms(k) if st[0] == "call" and st[2] == "std::vec::Vec::len") >= 2]
-                        outer.append((own and bool(lens), e, p0))
+                        outer.append((own and bool(lens), e, p0))  # (under the list lock: LC3)
             if not outer:
                 rep.bad(R, "on_unsubscribe-iff-removed:" + fn, ctx.where(body), "the removed subscriber is never released (no on_unsubscribe in the predicate or the removing function)")
             for good, e, p0 in outer:
                 rep.check(good, R, "on_unsubscribe-iff-removed:" + fn, ctx.where(body, e.bb), "path [%s]: releases the handle's own subscriber when the list got shorter" % p0.describe(),
-                          "path [%s]: on_unsubscribe outside the predicate cannot be related to the removal (receiver %s)" % (p0.describe(), term_str(e.args[0])))
+                          "path [%s]: on_unsubscribe outside the predicate is not (own subscriber, guarded by the list getting shorter) (receiver %s)" % (p0.describe(), term_str(e.args[0])))
         rep.floor(R, "predicate paths", n, 2, ctx.where(pc))
     # the subscriber pushed by add_subscriber is its parameter
     # the unsubscribe closure is what Subscription::unsubscribe of the returned handle calls
@@ -298,16 +298,16 @@ def su3_shutdown_release(ctx, rep):
         again = k in G.reach_after([k])
         rep.check(not again, R, "released-once:" + short(s.body.path), s.where, "the list is cleared once", "the shutdown release can run twice")
     # per path through the releasing function: unsubscribe every element, then clear, under lock
-    bodies = {s.body.path: s.body for k, s in clears}
+    for k, s2 in list(clears) + [(k_, s_) for k_, s_, l_ in unsub]:
+        may, must = held_in_graph(ctx, G, k)
+        rep.check(lock in must, R, "release-under-list-lock:%s:%s" % (s2.ck.split("::")[-1], short(s2.body.path)), s2.where, "runs with %s held" % lock, "runs without %s: a concurrent unsubscribe() can release the same subscriber again" % lock)
+    bodies = {}
+    for k, s2 in clears:
+        rb = ctx.helper_root(s2.body)
+        bodies[rb.path] = rb
     for b in bodies.values():
         rep.note_fn(b.path)
-        lr = ctx.lr(b)
-        for s in ctx.prog.sites(b):
-            ev = A.event(s)
-            if ev == "UNSUB" or (s.ck == "std::vec::Vec::clear"):
-                may, must = lr.held_at(s.bb)
-                rep.check(lock in must, R, "release-under-list-lock:%s:%s" % (s.ck.split("::")[-1], short(b.path)), s.where, "runs with %s held" % lock, "runs without %s: a concurrent unsubscribe() can release the same subscriber again" % lock)
-        pe = ctx.paths(b)
+        pe = ctx.paths(b, inline=True)
         rep.stats["paths"] += len(pe.paths)
         n = 0
         for p in pe.paths:
@@ -385,14 +385,18 @@ def lc1_unsubscribe_sites(ctx, rep):
     G = ctx.rgraph()
     gnodes = {(n.body.path, n.bb) for n in G.nodes.values()}
     retain_preds = set()
+    retain_bodies = set()
     for s in _retain_sites(ctx):
+        retain_bodies.add(s.body.path)
         for st in subterms(ctx.prog.bp(s.body).arg_term(s.bb, 1)):
             if st[0] == "agg" and st[1].startswith("closure:"):
                 retain_preds.add(st[1][8:])
     n = 0
     for s in unsub_sites(ctx):
         n += 1
-        where_ok = s.body.path in retain_preds or (s.body.path, s.bb) in gnodes
+        # (a release in the removing function itself, after the retain, is decided by SU2's
+        # on_unsubscribe-iff-removed and LC3's release-under-list-lock)
+        where_ok = s.body.path in retain_preds or s.body.path in retain_bodies or (s.body.path, s.bb) in gnodes
         rep.check(where_ok, R, "unsubscribe-site:" + short(s.body.path), s.where, "on_unsubscribe called from the unsubscribe predicate / shutdown release", "on_unsubscribe called from %s: a third release path" % short(s.body.path))
     rep.floor(R, "on_unsubscribe call sites", n, 2)
 
@@ -504,3 +508,29 @@ def su6_snapshot_right_before_delivery(ctx, rep):
             between = G.reach_after([k], avoid=set(P.recv) | {nk})
             bad = [u for u in user if u in between and nk in G.reach_after([u], avoid=P.recv)]
             rep.check(not bad, R, "no-callback-between-snapshot-and-delivery", ctx.where(G.nodes[k].body, G.nodes[k].bb), "the list is read right before the delivery loop", "user callbacks (%d sites, e.g. middleware hooks) run between reading the subscriber list and delivering: a subscriber that unsubscribed meanwhile is still notified" % len(bad))
+
+
+def cb1_callbacks_hold_no_reentrant_lock(ctx, rep):
+    """user callbacks on the reducer thread may read the state (get_state) and, for on_notify,
+    subscribe / unsubscribe: the reducer thread therefore holds neither the state lock during
+    any callback nor the subscriber-list lock during on_notify - otherwise the callback blocks
+    the one thread that reduces, and nothing after it is ever processed"""
+    R = "CB1"
+    A = ctx.A
+    G = ctx.rgraph()
+    state_lock = A.lock_id(A.f_state)
+    list_lock = A.lock_id(A.f_subscribers)
+    n = 0
+    seen = set()
+    for k, s, l in ctx.revents(lambda l: l in ("REDUCE", "NOTIFY", "ON_ERROR", "UNSUB") or l.startswith("HOOK:")):
+        may, must = held_in_graph(ctx, G, k)
+        n += 1
+        key = "no-state-lock-in-callback:%s" % l
+        if key not in seen or state_lock in may:
+            seen.add(key)
+            rep.check(state_lock not in may, R, key, s.where, "%s runs without %s" % (l, state_lock),
+                      "%s runs while the reducer thread holds %s: a get_state() inside the callback blocks the reducer thread forever" % (l, state_lock))
+        if l == "NOTIFY":
+            rep.check(list_lock not in may, R, "no-list-lock-in-on_notify", s.where, "on_notify runs without %s" % list_lock,
+                      "on_notify runs while the reducer thread holds %s: a subscriber that subscribes or unsubscribes from its callback blocks the reducer thread forever" % list_lock)
+    rep.floor(R, "callback sites on the reducer thread", n, 6)
